@@ -30,7 +30,7 @@ func (vt *Model) handleMouse(msg vaxis.Mouse) string {
 		return ""
 	}
 	// Return early if we aren't reporting drags
-	if !vt.mode.mouseDrag && msg.EventType == vaxis.EventMotion {
+	if !vt.mode.mouseDrag && !vt.mode.mouseMotion && msg.EventType == vaxis.EventMotion {
 		return ""
 	}
 
